@@ -68,6 +68,22 @@ def postfixed_twice(ast):
     return any(postfixed_twice(x) for x in ast[1:] if isinstance(x, tuple))
 
 
+def expanded_size(ast):
+    """number of NFA fragments the Thompson construction will make (repetitions copy their operand)"""
+    k = ast[0]
+    if k in ('lit', 'set', 'nset', 'any'):
+        return 1
+    if k in ('cat', 'alt'):
+        return 1 + expanded_size(ast[1]) + expanded_size(ast[2])
+    if k in ('star', 'opt'):
+        return 1 + expanded_size(ast[1])
+    if k == 'plus':
+        return 2 + 2 * expanded_size(ast[1])
+    if k == 'rep':
+        return 1 + max(1, ast[3]) * (1 + expanded_size(ast[1]))
+    raise AssertionError(ast)
+
+
 class NFA:
     def __init__(self):
         self.eps = []       # state -> set of states
